@@ -261,4 +261,16 @@ def MFunc.call (defs : Defs) (e : End) (f : MFunc) (m : Mem) (args : List CVal) 
   | .ret none s => match f.ret with | none => .val (none, s.mem) | some _ => .ub .typeError
   | .next s => match f.ret with | none => .val (none, s.mem) | some _ => .ub .typeError
 
+/-! ## the bulk-memory helpers (wasmMemoryCopy / wasmMemoryFill / load_data / LOAD_DATA): each is ONE call -/
+
+/-- argument of that call: `mem->data + addr` / `&((mem).data[addr])`, or a parameter (integer casts dropped) -/
+inductive BArg | memPlus (mem addr : String) | var (v : String)
+  deriving DecidableEq, Repr, Inhabited
+
+structure BulkFn where
+  params : List String
+  callee : String
+  args : List BArg
+  deriving Repr, Inhabited
+
 end W2c2Verif
